@@ -28,7 +28,7 @@ RATES = {
     ("CaL", "q"): lambda v, p: (0.055 * 3.8 * efun((-27 - v) / 3.8), 0.94 * exp((-75 - v) / 17)),
     ("CaL", "r"): lambda v, p: (0.000457 * exp((-13 - v) / 50), 0.0065 / (exp((-15 - v) / 28) + 1)),
     ("CaT", "u"): lambda v, p: (1 / (1 + exp((v + p["vx"] + 81) / 4)),
-                                (30.8 + (211.4 + exp((v + p["vx"] + 113.2) / 5))) / (3.7 * (1 + exp((v + p["vx"] + 84) / 3.2)))),
+                                30.8 + (211.4 + exp((v + p["vx"] + 113.2) / 5)) / (3.7 * (1 + exp((v + p["vx"] + 84) / 3.2)))),
 }
 
 CURRENTS = {
